@@ -126,19 +126,38 @@ theorem fullSyncLoop_aligned (batch : Nat) (hb : 0 < batch) (rest : List Region)
 
 /-! ### the follower's loop -/
 
-theorem foldl_applyOne_cache (rs : List Region) (f : Follower) :
-    (rs.foldl applyOne f).cache = rs.foldl applyRegion f.cache := by
-  induction rs generalizing f with
-  | nil => rfl
-  | cons r rs ih => simp only [List.foldl_cons]; rw [ih]; rfl
+/-- no save of this follower is set to fail -/
+def NoFail (f : Follower) : Prop := f.failOnce = [] ∧ f.failAlways = []
 
-theorem foldl_applyOne_index (rs : List Region) (f : Follower) :
-    (rs.foldl applyOne f).hist.index = f.hist.index + rs.length := by
+theorem applyOneF_noFail (f : Follower) (h : NoFail f) (r : Region) :
+    applyOneF f r = applyOne f r ∧ NoFail (applyOne f r) := by
+  unfold applyOneF
+  simp [h.1, h.2, applyOne, NoFail]
+
+theorem applyOneF_cache (f : Follower) (r : Region) : (applyOneF f r).cache = applyRegion f.cache r := by
+  unfold applyOneF
+  split
+  · rfl
+  · split <;> rfl
+
+/-- whatever saves fail, the cache takes every region -/
+theorem foldl_applyOne_cache (rs : List Region) (f : Follower) :
+    (rs.foldl applyOneF f).cache = rs.foldl applyRegion f.cache := by
   induction rs generalizing f with
   | nil => rfl
+  | cons r rs ih => simp only [List.foldl_cons]; rw [ih, applyOneF_cache]
+
+theorem foldl_applyOne_index (rs : List Region) (f : Follower) (h : NoFail f) :
+    (rs.foldl applyOneF f).hist.index = f.hist.index + rs.length ∧ NoFail (rs.foldl applyOneF f) := by
+  induction rs generalizing f with
+  | nil => exact ⟨rfl, h⟩
   | cons r rs ih =>
     simp only [List.foldl_cons, List.length_cons]
-    rw [ih]
+    obtain ⟨h1, h2⟩ := applyOneF_noFail f h r
+    rw [h1]
+    obtain ⟨h3, h4⟩ := ih (applyOne f r) h2
+    refine ⟨?_, h4⟩
+    rw [h3]
     simp only [applyOne]
     rw [(record_fields f.hist r false).2.2.2.2.1]
     omega
@@ -153,14 +172,19 @@ theorem applyMsg_cache (f : Follower) (m : Msg) :
 theorem resetWithIndex_index {α : Type} (b : Buf α) (n : Nat) (fl : Bool) : (resetWithIndex b n fl).index = n := by
   unfold resetWithIndex persist; split <;> rfl
 
-theorem applyMsg_index (f : Follower) (m : Msg) :
-    (applyMsg f m).hist.index = m.start + m.regions.length := by
+theorem applyMsg_index (f : Follower) (h : NoFail f) (m : Msg) :
+    (applyMsg f m).hist.index = m.start + m.regions.length ∧ NoFail (applyMsg f m) := by
   unfold applyMsg
   simp only
-  rw [foldl_applyOne_index, decode_length]
   split
-  · simp [resetWithIndex_index]
-  · next h => simp at h; rw [h]
+  · have := foldl_applyOne_index (decode m) { f with hist := resetWithIndex f.hist m.start false } h
+    rw [decode_length] at this
+    exact ⟨by rw [this.1]; simp [resetWithIndex_index], this.2⟩
+  · next hh =>
+    have := foldl_applyOne_index (decode m) f h
+    rw [decode_length] at this
+    simp at hh
+    exact ⟨by rw [this.1, hh], this.2⟩
 
 theorem applyMsgs_cache (ms : List Msg) (f : Follower) :
     (ms.foldl applyMsg f).cache = (ms.flatMap decode).foldl applyRegion f.cache := by
@@ -170,14 +194,16 @@ theorem applyMsgs_cache (ms : List Msg) (f : Follower) :
     simp only [List.foldl_cons, List.flatMap_cons, List.foldl_append]
     rw [ih, applyMsg_cache]
 
-theorem applyMsgs_index (ms : List Msg) (f : Follower) (s : Nat) (hs : f.hist.index = s) (hc : Chained s ms) :
+theorem applyMsgs_index (ms : List Msg) (f : Follower) (hnf : NoFail f) (s : Nat) (hs : f.hist.index = s)
+    (hc : Chained s ms) :
     (ms.foldl applyMsg f).hist.index = s + (ms.flatMap decode).length := by
   induction ms generalizing f s with
   | nil => simpa using hs
   | cons m ms ih =>
     simp only [List.foldl_cons, List.flatMap_cons, List.length_append]
     obtain ⟨h1, h2⟩ := hc
-    rw [ih (applyMsg f m) (s + m.regions.length) (by rw [applyMsg_index, h1]) h2, decode_length]
+    obtain ⟨h3, h4⟩ := applyMsg_index f hnf m
+    rw [ih (applyMsg f m) h4 (s + m.regions.length) (by rw [h3, h1]) h2, decode_length]
     omega
 
 /-! ### compatible regions -/
